@@ -367,5 +367,5 @@ pub(super) fn cancel_sequence(state: &mut SequenceState, kbd_out: &mut KbdOut) -
 }
 
 pub(super) fn add_noerase(state: &mut SequenceState, noerase_count: u16) {
-    state.noerase_count += noerase_count;
+    state.noerase_count = state.noerase_count.saturating_add(noerase_count);
 }
